@@ -114,6 +114,10 @@ pub struct TaskState {
     pub panic_at: Option<u32>,
     pub fault_fired: bool,
     pub overlapped: bool,
+    /// the task is doing the host's "other work" inside a StagedSplit call: a panic fault
+    /// belongs to the call under test, not to that work (the host would catch it and the
+    /// call would still have to equal its reference)
+    pub in_between: bool,
 }
 
 #[derive(Default, Clone, Debug, serde::Serialize, serde::Deserialize)]
@@ -246,6 +250,15 @@ pub fn state() -> std::sync::MutexGuard<'static, SimState> {
 
 pub fn in_shuttle() -> bool {
     IN_SHUTTLE.load(Ordering::SeqCst)
+}
+
+pub fn set_in_between(v: bool) {
+    let _gate = crate::threads::gate_close();
+    let task = cur_task();
+    let mut st = state();
+    if task < st.tasks.len() {
+        st.tasks[task].in_between = v;
+    }
 }
 
 pub fn set_seq_task(t: usize) {
@@ -571,7 +584,7 @@ impl log::Log for SimLogger {
             let n = st.tasks[task].records;
             // (shuttle engine only: nothing may be scheduled or injected while unwinding)
             let unwinding = std::thread::panicking();
-            do_panic = st.tasks[task].panic_at == Some(n) && !unwinding;
+            do_panic = st.tasks[task].panic_at == Some(n) && !unwinding && !st.tasks[task].in_between;
             session = st.session_open;
             others_in_flight = st
                 .tasks
